@@ -20,7 +20,7 @@ macro "rs_simp" "[" ts:Lean.Parser.Tactic.simpLemma,* "]" : tactic =>
   `(tactic| simp [Rs.lt, Rs.le, Rs.eq, Rs.emitNext, Rs.emitError, Rs.emitComplete, Rs.isFinished, Rs.unwrap,
       Rs.sub, Rs.ToVal.toVal, Rs.dflt, Rs.Dflt.dflt, Rs.len, Rs.isEmpty, Rs.contains, Rs.pushBack, Rs.pushFront,
       Rs.extend, Rs.IntoList.toList, Rs.setInsert, Rs.popFront, Rs.popBack, Rs.isSome, Rs.front, Rs.back,
-      Rs.unwrapOr, Rs.panic, Rs.lift, Rs.emitCall, Rs.emitUnsub, Rs.emitTo, Rs.isClosed, Rs.emitStart, Rs.emitLazy, $ts,*])
+      Rs.unwrapOr, Rs.panic, Rs.lift, Rs.emitCall, Rs.emitUnsub, Rs.emitTo, Rs.isClosed, Rs.emitStart, Rs.emitLazy, Rs.emitSched, $ts,*])
 
 macro "rs_tie" "[" ts:Lean.Parser.Tactic.simpLemma,* "]" : tactic =>
   `(tactic| (rs_simp [$ts,*] <;> (repeat' split) <;> simp_all))
